@@ -223,10 +223,12 @@ def harness_dir():
 _built = {}
 
 
-def build_harness(profile="debug", features=None):
+def build_harness(profile="debug", features=None, threads=False):
     """features: None = default (std, macros, par_iter, deser); else list of indextree features"""
     d, tag = harness_dir()
-    key = (profile, tuple(features) if features is not None else None)
+    if threads and features is None:
+        features = ["std", "macros", "par_iter", "deser"]
+    key = (profile, tuple(features) if features is not None else None, threads)
     if key in _built:
         return _built[key]
     cmd = ["cargo", "build", "--offline", "--quiet"]
@@ -236,8 +238,10 @@ def build_harness(profile="debug", features=None):
         cmd.append("--release")
     if features is not None:
         fs = ["it_" + {"std": "std", "macros": "macros", "par_iter": "par", "deser": "deser"}[f] for f in features]
+        if threads:
+            fs.append("it_threads")
         cmd += ["--no-default-features", "--features", ",".join(fs)] if fs else ["--no-default-features"]
-        alt = tag + "-f" + ("_".join(sorted(features)) or "none")
+        alt = tag + "-f" + ("_".join(sorted(features)) or "none") + ("-thr" if threads else "")
         env["CARGO_TARGET_DIR"] = os.path.join(WORK, "target" + alt)
     with Lock("cargo" + alt + profile):
         t0 = time.time()
@@ -542,6 +546,28 @@ def run_traces(binary, specs, tag, record_timeout=90, tlc_timeout=3600):
             raise ToolError("TLC could not validate %s:\n%s" % (s["file"], out[-3000:]))
         traces.append(t)
     return {"traces": traces, "findings": findings, "tag": tag}
+
+
+def record_only(binary, specs, tag, record_timeout=90):
+    """records the histories without validating them; returns {index: (path, sha256) or None}"""
+    d = os.path.join(RUN, "traces-" + tag)
+    os.makedirs(d, exist_ok=True)
+    jobs = []
+    for i, s in enumerate(specs):
+        f = os.path.join(d, "t%02d-%s.ndjson" % (i, s["mix"]))
+        cmd = [binary, "record", "--out", f, "--seed", str(s["seed"]), "--mix", s["mix"], "--events", str(s.get("events", 1000)),
+               "--segment", str(s.get("segment", 400)), "--max-slots", str(s.get("max_slots", 10))] + s.get("extra", [])
+        jobs.append((i, cmd, None, None, record_timeout))
+    rec = run_parallel(jobs, NCPU)
+    out = {}
+    for i, s in enumerate(specs):
+        rc, o, to = rec[i]
+        f = os.path.join(d, "t%02d-%s.ndjson" % (i, s["mix"]))
+        if to or rc != 0 or not os.path.exists(f):
+            out[i] = (f, "recording-failed rc=%s timeout=%s" % (rc, to))
+        else:
+            out[i] = (f, hashlib.sha256(open(f, "rb").read()).hexdigest())
+    return out
 
 
 def add_traces(v, r, what):
